@@ -96,11 +96,11 @@ pub fn c06_lm_unsigned_via_tag() {
 }
 
 // ---- group 1: structure ----------------------------------------------------------------------
-fn a1<const N: usize>() {
+fn a1<const N: usize, const D: usize>() {
     let buf: [u8; N] = kani::any();
     let mut i = 0;
     while i < N { kani::assume(in_alphabet(buf[i])); i += 1; }
-    let want = wellformed::<8>(&buf[..], 0, N + 1);
+    let want = wellformed::<D>(&buf[..], 0, N + 1);   // nesting depth <= N < D
     let mut d = Decoder::new(&buf[..]);
     let r = d.skip();
     let pos = d.position();
@@ -128,10 +128,23 @@ fn a1<const N: usize>() {
     }
 }
 
+/// Fixed-capacity models of the growth paths of skip()'s explicit stack (`Vec<Option<u64>>`, alloc
+/// build): std code, not minicbor's; the capacity assertion reports a stack deeper than 8.
+#[cfg(feature = "alloc")]
+pub fn m_vec_new<T>() -> alloc::vec::Vec<T> { alloc::vec::Vec::with_capacity(8) }
+#[cfg(feature = "alloc")]
+pub fn m_vec_push<T, A: core::alloc::Allocator>(v: &mut alloc::vec::Vec<T, A>, x: T) {
+    let n = v.len();
+    assert!(n < v.capacity(), "growth model: skip() stack deeper than the pre-sized capacity");
+    unsafe { v.as_mut_ptr().add(n).write(x); v.set_len(n + 1); }
+}
+
 macro_rules! a1_harness {
     ($name:ident, $n:expr, $uw:expr) => {
         #[kani::proof]
         #[kani::unwind($uw)]
+        #[cfg_attr(feature = "alloc", kani::stub(alloc::vec::Vec::new, m_vec_new))]
+        #[cfg_attr(feature = "alloc", kani::stub(alloc::vec::Vec::push, m_vec_push))]
         #[kani::stub(minicbor::decode::Decoder::u64, m_u64)]
         #[kani::stub(minicbor::decode::Decoder::int, m_int)]
         #[kani::stub(minicbor::decode::Decoder::array, m_array)]
@@ -139,15 +152,15 @@ macro_rules! a1_harness {
         #[kani::stub(minicbor::decode::Decoder::unsigned, m_unsigned)]
         #[kani::stub(minicbor::decode::Decoder::bytes_iter, m_bytes_iter)]
         #[kani::stub(minicbor::decode::Decoder::str_iter, m_str_iter)]
-        pub fn $name() { a1::<$n>() }
+        pub fn $name() { a1::<$n, { $n + 1 }>() }
     };
 }
-a1_harness!(c06_a1_n1, 1, 11);
-a1_harness!(c06_a1_n2, 2, 11);
-a1_harness!(c06_a1_n3, 3, 11);
-a1_harness!(c06_a1_n4, 4, 11);
-a1_harness!(c06_a1_n5, 5, 11);
-a1_harness!(c06_t_a1_n6, 6, 11);
+a1_harness!(c06_a1_n1, 1, 5);
+a1_harness!(c06_a1_n2, 2, 6);
+a1_harness!(c06_a1_n3, 3, 7);
+a1_harness!(c06_a1_n4, 4, 8);
+a1_harness!(c06_a1_n5, 5, 9);
+a1_harness!(c06_t_a1_n6, 6, 10);
 a1_harness!(c06_t_a1_n7, 7, 11);
 
 // ---- group 2: heads and strings with the real accessors, concrete initial byte ---------------
@@ -182,4 +195,30 @@ pub fn head_item<const B: u8>() {
         Wf::Trunc => assert!(r.is_err()),
         _ => {}
     }
+}
+
+/// A definite array / map head of any width B (1-, 2-, 4-, 8-byte length, all lengths symbolic)
+/// followed by 3 one-byte items and the end of the input: skip() succeeds exactly when the
+/// declared number of items (2n for maps, without wrapping) is present, ending behind the last
+/// one; otherwise (strict prefix of a longer item) it is an error.
+pub fn wide_container<const B: u8>() {
+    let a: [u8; 8] = kani::any();
+    let w = match B & 0x1f { 24 => 2, 25 => 3, 26 => 5, _ => 9 };
+    let mut buf = [0u8; 12];
+    buf[0] = B;
+    if w > 1 { buf[1] = a[0] } if w > 2 { buf[2] = a[1] } if w > 3 { buf[3] = a[2] } if w > 4 { buf[4] = a[3] }
+    if w > 5 { buf[5] = a[4] } if w > 6 { buf[6] = a[5] } if w > 7 { buf[7] = a[6] } if w > 8 { buf[8] = a[7] }
+    let total = w + 3;
+    let h = match read_head(&buf[..total], 0) { HeadR::Ok(h) => h, _ => { assert!(false); return } };
+    let items: u128 = if B >> 5 == 5 { (h.arg as u128) * 2 } else { h.arg as u128 };
+    let mut d = Decoder::new(&buf[..total]);
+    let r = d.skip();
+    if items <= 3 {
+        assert!(r.is_ok(), "skip() failed on a complete container");
+        assert!(d.position() == w + items as usize, "skip() stopped at a different position than the container's end");
+    } else {
+        assert!(r.is_err(), "skip() stopped early although the container declares more items than the input holds");
+    }
+    kani::cover!(items == 3 || items == 2);
+    kani::cover!(items > 3);
 }
